@@ -321,12 +321,12 @@ func solveAll(cfg *solveCfg, frs []*FuncResult) {
 		j.o.Secs += first
 	}
 	// long last attempt for `slow` baseline obligations (5..70 s on the unchanged,
-	// idle tree): run alone with a 900 s limit, at most 3 of them, 40 minutes in
+	// idle tree): run alone with a 900 s limit, at most 2 of them, 35 minutes in
 	// total. One that still has no answer afterwards is reported as no longer
 	// discharged; without this a change that makes a slow obligation unprovable
 	// (the solvers cannot answer `sat` on quantified bit-vector goals) was only
 	// ever "undecided".
-	deadline = time.Now().Add(40 * time.Minute)
+	deadline = time.Now().Add(35 * time.Minute)
 	cfg4 := *cfg
 	cfg4.quickS = cfg2.timeoutS
 	cfg4.timeoutS = 900
@@ -335,7 +335,7 @@ func solveAll(cfg *solveCfg, frs []*FuncResult) {
 		if j.o.Status != "timeout" && j.o.Status != "unknown" {
 			continue
 		}
-		if !cfg.slowDecide[j.o.Name] || n >= 3 || time.Now().After(deadline) {
+		if !cfg.slowDecide[j.o.Name] || n >= 2 || time.Now().After(deadline) {
 			continue
 		}
 		n++
